@@ -180,7 +180,7 @@ theorem arraySet_inert {arr : List Val} (harr : ∀ v ∈ arr, BoolV v) (item : 
     dsimp only
     refine Inert.bind (arrayIxs_inert it _) (fun ixs hixs => ?_)
     refine mapM'_inert (A := fun (cv : LinComb × Val) => (cv.1.value = 0 ∨ cv.1.value = 1) ∧ BoolV cv.2) (B := BoolV)
-      (fun cv hcv => ifThenElse_inert false rfl hv hcv.2) _ ?_
+      (fun cv hcv => ifThenElse_inert false rfl (BoolV_lcb.mpr hcv.1) hv hcv.2) _ ?_
     intro cv hcv
     obtain ⟨h1, h2⟩ := List.of_mem_zip hcv
     exact ⟨hixs _ h1, harr _ h2⟩
